@@ -130,6 +130,7 @@ type c04World struct {
 	limC    int    // largest MAX_DATA delivered to the sender
 	hi      [2]int // highest stream offset put on the wire = number of new bytes sent
 	written [2]int
+	ackedB  [2][]bool // bytes of each stream acknowledged so far
 	closedW [2]bool
 	cancelW [2]bool
 	blkS    [2][]int // limit values for which STREAM_DATA_BLOCKED was reported
@@ -373,6 +374,10 @@ func (w *c04World) Key() string {
 		k.i(w.limS[s])
 		k.i(w.hi[s])
 		k.i(w.written[s])
+		k.s("|ak")
+		for _, b := range w.ackedB[s] {
+			k.t(b)
+		}
 		k.t(w.closedW[s])
 		k.t(w.cancelW[s])
 		k.is(w.blkS[s])
